@@ -58,6 +58,19 @@ class Holder(object):
     return (self.base, -a, b, k)
 
 
+class EmptyHolder(Holder):
+  """A falsy instance (empty-container protocol); bound methods still take it first."""
+
+  def __len__(self):
+    return 0
+
+  @classmethod
+  def make(cls, a, b=1):
+    if a > b:
+      return (cls.__name__, a)
+    return (cls.__name__, b)
+
+
 def make_closures(c1, c2):
   c3 = [c1]
   unused = c2 + 100
